@@ -189,7 +189,7 @@ package mta
 //@   requires pf != nil ==> (wfBob(pf) && nnBob(pf))
 //@   requires [key-wellformed] gcd((powmod(val(sk.PublicKey.N) + 1, val(sk.LambdaN), nsq(sk.PublicKey)) - 1) / val(sk.PublicKey.N), val(sk.PublicKey.N)) == 1
 //@   ensures [C13.bob-proof-gates-the-share] result1 == nil ==> (pf != nil && pkA != nil && cA != nil && cB != nil && val(pf.S1) <= q3(ec) && val(pf.T1) <= q7(ec))
-//@   ensures [C13.share-is-decryption-mod-q] result1 == nil ==> (result0 != nil && 0 <= val(result0) && val(result0) < curveN(ec) && 0 <= val(cB) && val(cB) < nsq(sk.PublicKey))
+//@   ensures [C13.share-is-decryption-mod-q] result1 == nil ==> (result0 != nil && fresh(result0) && 0 <= val(result0) && val(result0) < curveN(ec) && 0 <= val(cB) && val(cB) < nsq(sk.PublicKey))
 //@   ensures result1 != nil ==> result0 == nil
 
 //@ func AliceEndWC
@@ -199,5 +199,5 @@ package mta
 //@   requires B != nil ==> (validPoint(B) && validPoint(pf.U))
 //@   requires [key-wellformed] gcd((powmod(val(sk.PublicKey.N) + 1, val(sk.LambdaN), nsq(sk.PublicKey)) - 1) / val(sk.PublicKey.N), val(sk.PublicKey.N)) == 1
 //@   ensures [C13.bob-proof-gates-the-share] result1 == nil ==> (pkA != nil && cA != nil && cB != nil && val(pf.ProofBob.S1) <= q3(ec) && val(pf.ProofBob.T1) <= q7(ec))
-//@   ensures [C13.share-is-decryption-mod-q] result1 == nil ==> (result0 != nil && 0 <= val(result0) && val(result0) < curveN(ec) && 0 <= val(cB) && val(cB) < nsq(sk.PublicKey))
+//@   ensures [C13.share-is-decryption-mod-q] result1 == nil ==> (result0 != nil && fresh(result0) && 0 <= val(result0) && val(result0) < curveN(ec) && 0 <= val(cB) && val(cB) < nsq(sk.PublicKey))
 //@   ensures result1 != nil ==> result0 == nil
